@@ -2738,7 +2738,7 @@ fn main() {
     }
 
     // 3. soup
-    let n_soup = if o.thorough() { 120_000 } else { 2_500 };
+    let n_soup = if o.thorough() { 120_000 } else { 2_000 };
     let mut srng = Rng::new(o.seed ^ 0x50C06);
     for k in 0..n_soup {
         let s = match k % 10 {
@@ -2753,7 +2753,7 @@ fn main() {
 
     // 4. character-class boundaries: every trigger x representative look-alike x context (quick: one
     //    character per class and an empty tail; thorough: every character), then random probes
-    let reps: Vec<char> = if o.thorough() { all_unicode() } else { vec!['５', '²', '٣', 'é', 'ｘ', '\u{a0}', '\u{3000}', '\u{2028}', '＜', '＄'] };
+    let reps: Vec<char> = if o.thorough() { all_unicode() } else { vec!['５', '²', 'é', 'ｘ', '\u{a0}', '\u{2028}', '＜', '＄'] };
     for t in TRIGGERS {
         for c in &reps {
             for (ci, ctx) in CONTEXTS.iter().enumerate() {
@@ -2766,7 +2766,7 @@ fn main() {
             }
         }
     }
-    let n_probe = if o.thorough() { 120_000 } else { 3_000 };
+    let n_probe = if o.thorough() { 120_000 } else { 1_500 };
     let mut prng = Rng::new(o.seed ^ 0xC06_0C1A55);
     for _ in 0..n_probe {
         let s = random_probe(&mut prng);
@@ -2799,7 +2799,7 @@ fn main() {
         }
     }
     // 7. command lines: scripts of the structural model's fragment in free surface form, and mutations
-    let n_lines = if o.thorough() { 60_000 } else { 700 };
+    let n_lines = if o.thorough() { 60_000 } else { 400 };
     let mut lrng = Rng::new(o.seed ^ 0x11E5_C06);
     for k in 0..n_lines {
         let s = lrng.next();
@@ -2813,6 +2813,52 @@ fn main() {
         }
         let case = format!("L {}", enc_str(&src));
         run_line_case(&case, &src);
+    }
+    // 8. totality on long and deeply nested inputs (deterministic): nesting 200 (thorough: 600) of every opener that
+    //    recurses in the parser - closed, unclosed and half closed - here-documents inside command substitutions inside
+    //    here-documents, and long flat inputs (a 40 kB word, 3000 words, 2000 pipeline elements, 2000 list items,
+    //    2000 redirections, 500 elif branches, 500 case items); the oracle is "no panic, within the time budget"
+    {
+        let d = if o.thorough() { 600 } else { 200 };
+        let openers: &[(&str, &str)] = &[("(", ")"), ("{ ", "; }"), ("$(", ")"), ("${x-", "}"), ("\"$(", ")\""), ("if ", "; then :; fi"), ("`", "`"), ("$((", "))"), ("a() ", ""), ("! ", ""), ("x | ", ""), ("while ", "; do :; done"), ("until ", "; do :; done"), ("for i in $(", "); do :; done"), ("case x in (x) ", " ;; esac"), ("x && ", ""), ("\"${y:-", "}\""), ("${z#", "}"), ("a=(", ")"), ("if :; then :; elif ", "; then :; fi")];
+        let mut inputs: Vec<String> = vec![];
+        for (op, cl) in openers {
+            for closers in [d, d / 2, 0] {
+                let mut s = op.repeat(d);
+                s.push(':');
+                s.push_str(&cl.repeat(closers));
+                inputs.push(s);
+            }
+        }
+        // here-documents nested through command substitutions
+        let hd = d.min(200);
+        let mut s = String::new();
+        for i in 0..hd {
+            s.push_str(&format!("cat <<E{i}\n$(\n"));
+        }
+        s.push_str(":\n");
+        for i in (0..hd).rev() {
+            s.push_str(&format!(")\nE{i}\n"));
+        }
+        inputs.push(s.clone());
+        inputs.push(s[..s.len() / 2].to_string());
+        inputs.push(format!("{}\n", (0..hd).map(|i| format!("<<E{i}")).collect::<Vec<_>>().join(" ")) + &(0..hd).map(|i| format!("x\nE{i}\n")).collect::<String>());
+        // long flat inputs
+        inputs.push("a".repeat(40_000));
+        inputs.push("w ".repeat(3_000));
+        inputs.push("x | ".repeat(2_000) + "x");
+        inputs.push("x; ".repeat(2_000));
+        inputs.push("x& ".repeat(2_000));
+        inputs.push("x ".to_string() + &">f ".repeat(2_000));
+        inputs.push("if :; then :; ".to_string() + &"elif :; then :; ".repeat(500) + "fi");
+        inputs.push("case x in ".to_string() + &"(a|b) :;; ".repeat(500) + "esac");
+        inputs.push("\\\n".repeat(5_000) + "x");
+        inputs.push("'".to_string() + &"q".repeat(40_000));
+        for s in &inputs {
+            if mine(&mut idx) {
+                run_raw(&mut r, s, false);
+            }
+        }
     }
     // 5. what the shell shows to the user: `typeset -fp` and the job table
     let n_shell = if o.thorough() { 4_000 } else { 300 };
